@@ -186,6 +186,11 @@ class State:
         r = self.rels.get((b, a))
         if r is not None:
             return frozenset(_FLIP[x] for x in r)
+        if isinstance(a, tuple) and isinstance(b, tuple) and len(a) == 2 and len(b) == 2 and a[0] == "neg" and b[0] == "neg":
+            # -x ? -y  is  y ? x  (uniform negation reverses the order and keeps ties)
+            r = self.rel_lookup(b[1], a[1])
+            if r is not None:
+                return r
         return None
 
     def rel_set(self, a, b, rels: frozenset) -> None:
